@@ -245,13 +245,16 @@ pub proof fn lemma_par_reported(data: Seq<Seq<u8>>, off: int, total: int, n: int
 pub proof fn lemma_c17_writers_agree(data: Seq<Seq<u8>>, off: int, total: int, sigma: Seq<int>)
     requires plan_ok(data, off, total), is_perm(sigma, data.len() as int), data.len() > 0,
     ensures
-        /*@C17*/ apply_writes(Seq::<u8>::empty(), par_writes(data, off, total, sigma)) == pieces(data, off, total, data.len() as int),
+        /*@C17*/ forall|f: Seq<u8>| #[trigger] apply_writes(f, par_writes(data, off, total, sigma)) == write_at(f, 0, pieces(data, off, total, data.len() as int)),
         /*@C17*/ off + plan_written(data, off, total, data.len() as int) <= cat(data, data.len() as int).len(),
         /*@C17*/ pieces(data, off, total, data.len() as int)
                     == cat(data, data.len() as int).subrange(off, off + plan_written(data, off, total, data.len() as int)),
         /*@C17*/ range_in_plan(data, off, total) ==> plan_written(data, off, total, data.len() as int) == total,
 {
     lemma_plan_output(data, off, total, sigma);
+    assert forall|f: Seq<u8>| #[trigger] apply_writes(f, par_writes(data, off, total, sigma)) == write_at(f, 0, pieces(data, off, total, data.len() as int)) by {
+        lemma_par_output(f, data, off, total, sigma);
+    }
 }
 
 // (i-b) parallel writer: joining the tasks in completion order and adding up what each reports
@@ -355,21 +358,21 @@ impl RemoteClient {
         // machine arithmetic: `remaining_len + start as u64`
         offset_into_first_range + req_total(byte_range, terms@) <= u64::MAX,
     ensures
-        /*@C17*/ r matches Ok(p) ==> p.1.offset() == 0,
-        // output == the pieces in plan order == concat(term data)[off .. off + w],  w == min(total_len, sum(unpacked) - off)
-        /*@C17*/ r matches Ok(p) ==> p.1.written() == pieces(self.plan_data(terms@), offset_into_first_range as int, req_total(byte_range, terms@), terms@.len() as int),
-        /*@C17*/ r matches Ok(p) ==> terms@.len() > 0 ==> seq_out_is_slice(self.plan_data(terms@), offset_into_first_range as int, req_total(byte_range, terms@), p.1.written()),
-        /*@C17*/ r matches Ok(p) ==> terms@.len() == 0 ==> p.1.written().len() == 0,
+        // the output image == the previous image with OUT written at offset 0, OUT = the pieces in plan order
+        /*@C17*/ r matches Ok(p) ==> p.1.content() == write_at(p.1.pre(), 0, pieces(self.plan_data(terms@), offset_into_first_range as int, req_total(byte_range, terms@), terms@.len() as int)),
+        // OUT == concat(term data)[off .. off + w],  w == min(total_len, sum(unpacked) - off)
+        /*@C17*/ r matches Ok(p) ==> terms@.len() > 0 ==> seq_out_is_slice(self.plan_data(terms@), offset_into_first_range as int, req_total(byte_range, terms@), pieces(self.plan_data(terms@), offset_into_first_range as int, req_total(byte_range, terms@), terms@.len() as int)),
+        /*@C17*/ r matches Ok(p) ==> terms@.len() == 0 ==> pieces(self.plan_data(terms@), offset_into_first_range as int, req_total(byte_range, terms@), terms@.len() as int).len() == 0,
         // reported length == bytes written, when the byte range lies within the plan
-        /*@C17*/ r matches Ok(p) ==> terms@.len() > 0 && range_in_plan(self.plan_data(terms@), offset_into_first_range as int, req_total(byte_range, terms@)) ==> p.0 == p.1.written().len(),
+        /*@C17*/ r matches Ok(p) ==> terms@.len() > 0 && range_in_plan(self.plan_data(terms@), offset_into_first_range as int, req_total(byte_range, terms@)) ==> p.0 == pieces(self.plan_data(terms@), offset_into_first_range as int, req_total(byte_range, terms@), terms@.len() as int).len(),
         // whole file (no byte range, offset 0): everything is written
-        /*@C17*/ r matches Ok(p) ==> byte_range is None && offset_into_first_range == 0 && terms@.len() > 0 ==> p.1.written() == cat(self.plan_data(terms@), terms@.len() as int) && p.0 == p.1.written().len(),
+        /*@C17*/ r matches Ok(p) ==> byte_range is None && offset_into_first_range == 0 && terms@.len() > 0 ==> pieces(self.plan_data(terms@), offset_into_first_range as int, req_total(byte_range, terms@), terms@.len() as int) == cat(self.plan_data(terms@), terms@.len() as int) && p.0 == pieces(self.plan_data(terms@), offset_into_first_range as int, req_total(byte_range, terms@), terms@.len() as int).len(),
 //@ before `let mut remaining_len`
     let ghost data = self.plan_data(terms@);
     let ghost off = offset_into_first_range as int;
     let ghost total = total_len as int;
     let ghost mut i: int = 0;
-    let ghost woff = writer.offset();
+    let ghost wpre = writer.pre();
     let ghost nterms = terms@.len() as int;
     proof {
         assert(total == req_total(byte_range, terms@));
@@ -381,8 +384,9 @@ impl RemoteClient {
             plan_ok(data, off, total), off + total <= u64::MAX,
             i == futs_buffered_enumerated.pos(), 0 <= i <= data.len(),
             remaining_len == plan_rem(data, off, total, i),
-            writer.written() == pieces(data, off, total, i),
-            writer.offset() == woff,
+            writer.pre() == wpre,
+            writer.content() == write_at(wpre, 0, pieces(data, off, total, i)),
+            writer.pos() == pieces(data, off, total, i).len(),
         ensures i == data.len(),
         decreases data.len() - futs_buffered_enumerated.pos(),
 //@ before `let start = if term_idx == 0`
@@ -391,7 +395,10 @@ impl RemoteClient {
                 lemma_plan_unfold(data, off, total, i);
             }
 //@ after `remaining_len -= len_written;`
-            proof { i = i + 1; }
+            proof {
+                lemma_write_at_append(wpre, 0, pieces(data, off, total, i), piece(data, off, total, i));
+                i = i + 1;
+            }
 //@ before `writer.flush()`
         proof {
             let n = data.len() as int;
@@ -483,10 +490,139 @@ impl TermWriteTask {
         term_range.start <= term_range.end,
     ensures
         /*@C17*/ term_range.end > term_payload(term).len() ==> r is Err,
-        // one positioned write of term_data[start..end] at file_offset; reported length == bytes written
-        /*@C17*/ r matches Ok(p) ==> p.1.offset() == file_offset,
-        /*@C17*/ r matches Ok(p) ==> term_range.end <= term_payload(term).len() && p.1.written() == term_payload(term).subrange(term_range.start as int, term_range.end as int),
-        /*@C17*/ r matches Ok(p) ==> p.0 == p.1.written().len(),
+        // output image == the image the task found, with term_data[start..end] written at file_offset; reported length == bytes written
+        /*@C17*/ r matches Ok(p) ==> term_range.end <= term_payload(term).len(),
+        /*@C17*/ r matches Ok(p) ==> p.1.content() == write_at(p.1.pre(), file_offset as int, term_payload(term).subrange(term_range.start as int, term_range.end as int)),
+        /*@C17*/ r matches Ok(p) ==> p.0 == term_range.end - term_range.start,
+//@ end
+}
+
+// ======================================================================================================================
+// (iv) the real output providers (cas_client/src/interface.rs): what `get_writer_at` does to the output and where the
+// returned writer writes.  These items PROVE `writer_at_post` / `write_post` (recon_io.rs) — the contract the `OutWriter` /
+// `OutputProvider` stubs of the writers' proofs carry — from a model of `std::fs::OpenOptions` / `File::seek` / `Cursor`.
+#[verifier::external_body] struct PathBuf { _p: () }
+enum SeekFrom { Start(u64), End(i64), Current(i64) }
+// std::fs::File as a writer handle: pre() = image on disk when it was opened (empty if the file did not exist),
+// content() = image after open's own effect (truncation) and the writes through this handle, pos() = cursor
+#[verifier::external_body] struct File { _p: () }
+spec fn seek_target(pos: int, len: int, to: SeekFrom) -> int {
+    match to { SeekFrom::Start(n) => n as int, SeekFrom::End(d) => len + d, SeekFrom::Current(d) => pos + d }
+}
+impl File {
+    uninterp spec fn pre_exists(&self) -> bool;
+    uninterp spec fn pre(&self) -> Seq<u8>;
+    uninterp spec fn content(&self) -> Seq<u8>;
+    uninterp spec fn pos(&self) -> int;
+    uninterp spec fn writable(&self) -> bool;
+    // lseek: moves the cursor only
+    #[verifier::external_body]
+    fn seek(&mut self, to: SeekFrom) -> (r: Result<u64>)
+        ensures final(self).pre() == old(self).pre(), final(self).content() == old(self).content(), final(self).writable() == old(self).writable(),
+            r matches Ok(n) ==> n == seek_target(old(self).pos(), old(self).content().len() as int, to) && final(self).pos() == n,
+    { unimplemented!() }
+    // write(2) at the cursor of a writable handle (the model the `OutWriter::write_all` stub states; not called by item (iv) itself)
+    #[verifier::external_body]
+    fn write_all(&mut self, buf: &[u8]) -> (r: Result<()>)
+        ensures final(self).pre() == old(self).pre(),
+            r is Ok ==> old(self).writable() && write_post(old(self).content(), old(self).pos(), buf@, final(self).content(), final(self).pos()),
+    { unimplemented!() }
+}
+// std::fs::OpenOptions: a builder; `open` acts according to the flags that were actually set
+struct OpenOptions { write: bool, truncate: bool, create: bool }
+impl OpenOptions {
+    fn new() -> (r: OpenOptions) ensures !r.write, !r.truncate, !r.create, { OpenOptions { write: false, truncate: false, create: false } }
+    fn write(self, b: bool) -> (r: OpenOptions) ensures r.write == b, r.truncate == self.truncate, r.create == self.create, { OpenOptions { write: b, truncate: self.truncate, create: self.create } }
+    fn truncate(self, b: bool) -> (r: OpenOptions) ensures r.truncate == b, r.write == self.write, r.create == self.create, { OpenOptions { write: self.write, truncate: b, create: self.create } }
+    fn create(self, b: bool) -> (r: OpenOptions) ensures r.create == b, r.write == self.write, r.truncate == self.truncate, { OpenOptions { write: self.write, truncate: self.truncate, create: b } }
+    // open(2): fails on a missing file unless `create`; `truncate` (needs `write`) empties the file, otherwise the image is kept;
+    // a created file is empty; the cursor starts at 0
+    #[verifier::external_body]
+    fn open(self, path: &PathBuf) -> (r: Result<File>)
+        ensures r matches Ok(f) ==> (f.pre_exists() || self.create) && (self.truncate ==> self.write)
+            && (!f.pre_exists() ==> f.pre() == Seq::<u8>::empty())
+            && f.content() == (if self.truncate { Seq::<u8>::empty() } else { f.pre() })
+            && f.pos() == 0 && f.writable() == self.write,
+    { unimplemented!() }
+}
+//@ extract cas_client/src/interface.rs struct FileProvider
+//@ end
+impl FileProvider {
+//@ extract cas_client/src/interface.rs in `impl FileProvider` fn get_writer_at
+//@ ret r
+//@ subst `Box<dyn Write + Send>` => `Box<File>` :: R11 trait-object erasure: the concrete writer type behind the `dyn Write`
+//@ contract
+    ensures
+        // the existing image is left unchanged and the writer stands at `start` — for EVERY start, 0 included
+        /*@C17*/ r matches Ok(w) ==> writer_at_post(w.pre(), w.content(), w.pos(), start),
+        /*@C17*/ r matches Ok(w) ==> w.writable(),
+//@ end
+}
+
+// the in-memory provider (test configuration): `Arc<Mutex<Cursor<Vec<u8>>>>` shared by all writers of one output
+#[verifier::external_body] struct SharedCursor { _p: () }
+impl SharedCursor { uninterp spec fn id(&self) -> int; }        // which shared buffer
+// MutexGuard<Cursor<Vec<u8>>>: pre() = buffer image when the lock was taken, content()/pos() = after this guard's operations
+#[verifier::external_body] struct CursorGuard { _p: () }
+impl CursorGuard {
+    uninterp spec fn of(&self) -> int;
+    uninterp spec fn pre(&self) -> Seq<u8>;
+    uninterp spec fn content(&self) -> Seq<u8>;
+    uninterp spec fn pos(&self) -> int;
+    #[verifier::external_body]
+    fn set_position(&mut self, p: u64)
+        ensures final(self).of() == old(self).of(), final(self).pre() == old(self).pre(), final(self).content() == old(self).content(), final(self).pos() == p,
+    { unimplemented!() }
+    // <Cursor<Vec<u8>> as Write>::write: writes the whole buffer at the cursor, zero-filling a gap, and advances the cursor
+    #[verifier::external_body]
+    fn write(&mut self, buf: &[u8]) -> (r: Result<usize>)
+        ensures final(self).of() == old(self).of(), final(self).pre() == old(self).pre(),
+            r matches Ok(n) ==> n == buf@.len() && final(self).pos() <= u64::MAX
+                && write_post(old(self).content(), old(self).pos(), buf@, final(self).content(), final(self).pos()),
+    { unimplemented!() }
+    #[verifier::external_body]
+    fn position(&self) -> (r: u64) ensures 0 <= self.pos() <= u64::MAX ==> r == self.pos(), { unimplemented!() }
+}
+// R7 outline of `self.inner.lock().map_err(|e| std::io::Error::other(format!("{e}")))` (closure + format!): taking the lock changes nothing
+#[verifier::external_body]
+fn vx_lock(c: &SharedCursor) -> (r: Result<CursorGuard>)
+    ensures r matches Ok(g) ==> g.of() == c.id() && g.content() == g.pre(),
+{ unimplemented!() }
+//@ extract cas_client/src/interface.rs struct ThreadSafeBuffer
+//@ subst `Arc<Mutex<Cursor<Vec<u8>>>>` => `SharedCursor` :: R11 stub type for the shared in-memory buffer
+//@ end
+//@ extract cas_client/src/interface.rs struct BufferProvider
+//@ end
+// `#[derive(Clone)]` (dropped by R10): field-wise; cloning the `Arc` shares the same buffer
+impl ThreadSafeBuffer {   // inherent stand-in for the derived `Clone::clone`
+    #[verifier::external_body]
+    fn clone(&self) -> (r: Self) ensures r.idx == self.idx, r.inner.id() == self.inner.id(), { unimplemented!() }
+}
+impl BufferProvider {
+//@ extract cas_client/src/interface.rs in `impl BufferProvider` fn get_writer_at
+//@ ret r
+//@ subst `Box<dyn Write + Send>` => `Box<ThreadSafeBuffer>` :: R11 trait-object erasure: the concrete writer type behind the `dyn Write`
+//@ contract
+    ensures
+        // a handle on the SAME shared buffer standing at `start`; no operation touches the buffer (no lock is taken), so its
+        // image is unchanged: writer_at_post with content == pre by construction
+        /*@C17*/ r matches Ok(w) ==> w.idx == start,
+        /*@C17*/ r matches Ok(w) ==> w.inner.id() == self.buf.inner.id(),
+//@ end
+}
+impl ThreadSafeBuffer {
+//@ extract cas_client/src/interface.rs in `impl Write for ThreadSafeBuffer` region write
+//@ block `fn write(&mut self, buf: &[u8]) -> std::io::Result<usize> {`
+//@ sig `fn write_body(&mut self, buf: &[u8]) -> (r: Result<(usize, CursorGuard)>)`
+//@ epilogue `.vx_with(guard)`
+//@ subst `self.inner.lock().map_err(|e| std::io::Error::other(format!("{e}")))?` => `vx_lock(&self.inner)?` :: R7 outline: poison-error conversion closure with format!
+//@ contract
+    ensures
+        final(self).inner.id() == old(self).inner.id(),
+        // one positioned write at the handle's offset into the shared buffer; the handle advances by what was written
+        /*@C17*/ r matches Ok(p) ==> p.1.of() == old(self).inner.id(),
+        /*@C17*/ r matches Ok(p) ==> p.0 == buf@.len(),
+        /*@C17*/ r matches Ok(p) ==> write_post(p.1.pre(), old(self).idx as int, buf@, p.1.content(), final(self).idx as int),
 //@ end
 }
 
